@@ -97,7 +97,7 @@ ThreadSym == Permutations(Threads)
 
 (* ------------------------------------------------------------------ checked ------------- *)
 (* a pending call can always take effect, a linearized call can always return *)
-LinPossible == \A t \in Threads : /\ pc[t] \in {"invoked", "writing", "reading"} => ENABLED MCLin(t)
+LinPossible == \A t \in Threads : /\ pc[t] \in {"invoked", "writing", "flushing", "reading"} => ENABLED MCLin(t)
                                   /\ pc[t] = "lin" => ENABLED MCReturn(t)
 
 (* stated pointwise on the reported entries, without the sorting used by Do *)
@@ -124,11 +124,11 @@ ReadExplained ==
                                 ELSE res[t] = [err |-> "ErrKeyNotFound", val |-> <<>>]
 
 (* a Commit that returned ok has applied every one of its writes *)
-CommitComplete == \A t \in Threads : (pc[t] = "lin" /\ call[t].op = "Commit") => todo[t] = {}
+CommitComplete == \A t \in Threads : (pc[t] \in {"flushing", "lin"} /\ call[t].op = "Commit") => todo[t] = {}
 
 (* only Lin steps change the map, and a read never does *)
 OnlyLinWritesA == store' # store => \E t \in Threads : /\ pc[t] \in {"invoked", "writing"}
-                                                       /\ pc'[t] \in {"writing", "lin"}
+                                                       /\ pc'[t] \in {"writing", "flushing", "lin"}
                                                        /\ call[t].op \notin Reads \cup {"Flush"}
 OnlyLinWrites == [][OnlyLinWritesA]_mcvars
 =======================================================================
